@@ -139,4 +139,95 @@ theorem headers_padded_roundtrip (sid : Nat) (endStream endHeaders : Bool) (frag
   · unfold checkOrder
     cases endStream <;> cases endHeaders <;> simp [hasFlag]
 
+/-- HEADERS round trip with BOTH padding (1..255 zero octets) and a non-zero priority block -/
+theorem headers_padded_priority_roundtrip (sid : Nat) (endStream endHeaders : Bool) (frag rest : Bytes) (padLen max : Nat)
+    (dep weight : Nat) (excl : Bool) (hsid : 0 < sid ∧ sid < 2147483648) (hd : dep < 2147483648) (hwt : weight < 256)
+    (hnz : prioIsZero { dep := dep, excl := excl, weight := weight } = false)
+    (hp : 1 ≤ padLen ∧ padLen ≤ 255) (hm : 6 + frag.length + padLen ≤ max) (hm2 : 6 + frag.length + padLen < 16777216) :
+    ∃ w, writeHeaders sid frag endStream endHeaders padLen { dep := dep, excl := excl, weight := weight } = .ok w ∧
+      readFrame max 0 (w ++ rest) =
+        (.ok (.headers sid (8 + (if endStream then 1 else 0) + (if endHeaders then 4 else 0) + 32)
+                { dep := dep, excl := excl, weight := weight } frag),
+         if endHeaders then 0 else sid, rest) := by
+  have hvs : validStreamID sid = true := by simp [validStreamID]; omega
+  have hpn : padLen ≠ 0 := by omega
+  have hw : writeHeaders sid frag endStream endHeaders padLen { dep := dep, excl := excl, weight := weight } =
+      rawFrame 1 (8 + (if endStream then 1 else 0) + (if endHeaders then 4 else 0) + 32) sid
+        ([UInt8.ofNat padLen] ++ (be32 (dep + (if excl then 2147483648 else 0)) ++ [UInt8.ofNat weight]) ++ frag ++ List.replicate padLen 0) := by
+    simp only [writeHeaders, hvs, hnz, hpn]
+    simp
+    rw [if_neg (by omega), if_neg hpn, if_neg hpn]
+    simp
+  rw [hw]
+  have hpb := prio_bytes dep excl weight hd hwt
+  have hlen5 : (be32 (dep + (if excl then 2147483648 else 0)) ++ [UInt8.ofNat weight]).length = 5 := rfl
+  generalize hpl : be32 (dep + (if excl then 2147483648 else 0)) ++ [UInt8.ofNat weight] = pb at hpb hlen5 ⊢
+  apply flagged_roundtrip 1 _ sid _ rest max _ _ (by omega) (by cases endStream <;> cases endHeaders <;> simp) hsid.2
+    (by simp only [List.length_append, List.length_cons, List.length_nil, List.length_replicate]; omega)
+    (by simp only [List.length_append, List.length_cons, List.length_nil, List.length_replicate]; omega)
+  · simp only [parsePayload]
+    unfold parseHeaders
+    have hf8 : hasFlag (8 + (if endStream then 1 else 0) + (if endHeaders then 4 else 0) + 32) 8 = true := by
+      cases endStream <;> cases endHeaders <;> rfl
+    have hf32 : hasFlag (8 + (if endStream then 1 else 0) + (if endHeaders then 4 else 0) + 32) 32 = true := by
+      cases endStream <;> cases endHeaders <;> rfl
+    rw [if_neg (by omega)]
+    simp only [hf8, hf32, padLenOf, afterPad, if_true]
+    rw [if_neg (by simp)]
+    have hhead : (([UInt8.ofNat padLen] ++ pb ++ frag ++ List.replicate padLen (0 : UInt8)).headD 0).toNat = padLen := by
+      simp [u8 padLen (by omega)]
+    have hdrop1 : ([UInt8.ofNat padLen] ++ pb ++ frag ++ List.replicate padLen (0 : UInt8)).drop 1 = pb ++ (frag ++ List.replicate padLen 0) := by
+      simp
+    rw [hhead, hdrop1]
+    have hdrop5 : (pb ++ (frag ++ List.replicate padLen (0 : UInt8))).drop 5 = frag ++ List.replicate padLen 0 := by
+      rw [← hlen5]; exact List.drop_left' rfl
+    rw [if_neg (by simp only [List.length_append, List.length_replicate]; omega), hdrop5]
+    rw [if_neg (by simp)]
+    have hprio : prioOf (pb ++ (frag ++ List.replicate padLen (0 : UInt8))) = prioOf pb := by
+      obtain ⟨a, b, c, d, e, rfl⟩ : ∃ a b c d e, pb = [a, b, c, d, e] := by
+        rcases pb with _ | ⟨a, _ | ⟨b, _ | ⟨c, _ | ⟨d, _ | ⟨e, _ | ⟨f, r⟩⟩⟩⟩⟩⟩ <;> simp at hlen5
+        exact ⟨a, b, c, d, e, rfl⟩
+      simp [prioOf, u32be]
+    rw [hprio, hpb]
+    simp
+  · unfold checkOrder
+    cases endStream <;> cases endHeaders <;> simp [hasFlag]
+
+/-- PUSH_PROMISE round trip with padding -/
+theorem push_promise_padded_roundtrip (sid promise : Nat) (endHeaders : Bool) (frag rest : Bytes) (padLen max : Nat)
+    (hsid : 0 < sid ∧ sid < 2147483648) (hp : 0 < promise ∧ promise < 2147483648) (hpad : 1 ≤ padLen ∧ padLen ≤ 255)
+    (hm : 5 + frag.length + padLen ≤ max) (hm2 : 5 + frag.length + padLen < 16777216) :
+    ∃ w, writePushPromise sid promise frag endHeaders padLen = .ok w ∧
+      readFrame max 0 (w ++ rest) = (.ok (.pushPromise sid (8 + (if endHeaders then 4 else 0)) promise frag), 0, rest) := by
+  have hvs : validStreamID sid = true := by simp [validStreamID]; omega
+  have hvp : validStreamID promise = true := by simp [validStreamID]; omega
+  have hpn : padLen ≠ 0 := by omega
+  have hw : writePushPromise sid promise frag endHeaders padLen =
+      rawFrame 5 (8 + (if endHeaders then 4 else 0)) sid ([UInt8.ofNat padLen] ++ be32 promise ++ frag ++ List.replicate padLen 0) := by
+    simp [writePushPromise, hvs, hvp, hpn]
+  rw [hw]
+  have hlen4 : (be32 promise).length = 4 := rfl
+  apply flagged_roundtrip 5 _ sid _ rest max _ 0 (by omega) (by split <;> omega) hsid.2
+    (by simp only [List.length_append, List.length_cons, List.length_nil, List.length_replicate, hlen4]; omega)
+    (by simp only [List.length_append, List.length_cons, List.length_nil, List.length_replicate, hlen4]; omega)
+  · simp only [parsePayload]
+    unfold parsePushPromise
+    have hf8 : hasFlag (8 + (if endHeaders then 4 else 0)) 8 = true := by cases endHeaders <;> rfl
+    rw [if_neg (by omega)]
+    simp only [hf8, padLenOf, afterPad, if_true]
+    rw [if_neg (by simp)]
+    have hhead : (([UInt8.ofNat padLen] ++ be32 promise ++ frag ++ List.replicate padLen (0 : UInt8)).headD 0).toNat = padLen := by
+      simp [u8 padLen (by omega)]
+    have hdrop1 : ([UInt8.ofNat padLen] ++ be32 promise ++ frag ++ List.replicate padLen (0 : UInt8)).drop 1 =
+        be32 promise ++ (frag ++ List.replicate padLen 0) := by simp
+    rw [hhead, hdrop1]
+    have hdrop4 : (be32 promise ++ (frag ++ List.replicate padLen (0 : UInt8))).drop 4 = frag ++ List.replicate padLen 0 := by
+      rw [← hlen4]; exact List.drop_left' rfl
+    have hv : u32be (be32 promise ++ (frag ++ List.replicate padLen (0 : UInt8))) = promise := u32be_be32 promise (by omega) _
+    rw [if_neg (by simp only [List.length_append, List.length_replicate, hlen4]; omega), hdrop4]
+    rw [if_neg (by simp)]
+    rw [hv, Nat.mod_eq_of_lt hp.2]
+    simp
+  · unfold checkOrder; simp
+
 end Fp.C19
